@@ -798,8 +798,8 @@ theorem flat_ty_step (x : Ext) (σ : Space) (f : Nat) (ih : ProdTy x σ f) :
         obtain ⟨fs, rfl, hfs⟩ := ihStruct _ _ _ _ h.1
         exact hfs
     | map k vt =>
-      simp only [deFlat, hget, Prod.mk.injEq] at h
-      exact tyB_mono σ _ _ _ (ihDe _ _ _ h.1)
+      rw [deFlat_map_eq x σ hget, Prod.mk.injEq] at h
+      exact de_ty_step x σ f ⟨ihDe, ihVar, ihStruct, ihDflt, ihFlat⟩ _ _ _ h.1
     | option t' =>
       rw [deFlat_option_eq x hget] at h
       unfold tyB; simp only [hget, Bool.or_eq_true]
